@@ -463,6 +463,13 @@ class Unit:
         if denominator not in ('g', 'L', 'mol'):
             raise ValueError("Invalid unit in denominator.")
 
+        if solute.is_enzyme() and numerator in ('g', 'L'):
+            # an enzyme is counted in activity units: restate its mass or volume per ... in U per ...
+            c *= solute.specific_activity if numerator == 'g' else solute.density * 1000.
+            numerator = 'U'
+        if solute.is_enzyme() and numerator == 'mol':
+            raise ValueError(f"{solute.name} cannot be measured in moles.")
+
         ratio = None  # ration of solute to solvent in moles
         if numerator == 'g':
             if denominator == 'g':
